@@ -47,6 +47,35 @@ def _solve_text(args):
         return "error", time.time() - t0, "", repr(e)
 
 
+_G = {}   # obligations / axioms shared with forked workers (z3 ASTs are used in place, no serialisation)
+
+
+def _solve_idx(args):
+    i, timeout_ms, rlimit, mbqi, want_model = args
+    t0 = time.time()
+    try:
+        ob = _G["obs"][i]
+        s = _mk_solver(mbqi, timeout_ms, rlimit)
+        for a in _G["axioms"]:
+            s.add(a)
+        for p in ob.pc:
+            s.add(p)
+        s.add(ob.goal if ob.expect == "sat" else z3.Not(ob.goal))
+        r = s.check()
+        out = str(r)
+        model, reason = "", ""
+        if r == z3.sat and want_model:
+            try:
+                model = s.model().sexpr()[:20000]
+            except Exception as e:  # pragma: no cover
+                model = f"<model unavailable: {e}>"
+        if r == z3.unknown:
+            reason = s.reason_unknown()
+        return out, time.time() - t0, model, reason
+    except Exception as e:
+        return "error", time.time() - t0, "", repr(e)
+
+
 def _cvc5(smt2: str, timeout_s: int):
     t0 = time.time()
     with tempfile.NamedTemporaryFile("w", suffix=".smt2", delete=False, dir=os.environ.get("PYVC_TMP", None)) as f:
@@ -95,27 +124,25 @@ class Result:
 
 
 def discharge(E, obligations, jobs=16, timeout_ms=20000, rlimit=None, use_cvc5=True, model_phase=True, executor=None):
+    import multiprocessing as mp
     from . import arith
     axioms = prelude.all_axioms() + list(E.extra_axioms) + (arith.axioms(E) if ('rmul' in E.uf or 'rdiv' in E.uf) else [])
-    tasks = []
-    for ob in obligations:
-        if ob.expect == "sat":
-            text = to_smt2(axioms, ob.pc, ob.goal, negate=False)
-        else:
-            text = to_smt2(axioms, ob.pc, ob.goal, negate=True)
-        tasks.append((text, timeout_ms, rlimit, False, False))
-    own = executor is None
-    ex = executor or ProcessPoolExecutor(max_workers=jobs)
+    _G["obs"] = obligations
+    _G["axioms"] = axioms
+    ctx = mp.get_context("fork")
+    ex = ctx.Pool(processes=jobs)
+    own = True
     try:
-        outs = list(ex.map(_solve_text, tasks, chunksize=1))
+        tasks = [(i, timeout_ms, rlimit, False, False) for i in range(len(obligations))]
+        outs = ex.map(_solve_idx, tasks, chunksize=1)
         results: dict[str, Result] = {}
         retry = []
-        for ob, task, (out, dt, _m, reason) in zip(obligations, tasks, outs):
+        for i, (ob, (out, dt, _m, reason)) in enumerate(zip(obligations, outs)):
             r = results.setdefault(ob.name, Result(ob.name, ob.kind, ob.func, ob.info))
             r.instances += 1
             r.time += dt
             r.expect = ob.expect
-            r.smt_size = max(r.smt_size, len(task[0]))
+            r.smt_size = max(r.smt_size, sum(1 for _ in ob.pc))
             if ob.expect == "sat":
                 # cover / vacuity guard: must NOT be refutable
                 r.backends.add("z3")
@@ -130,32 +157,34 @@ def discharge(E, obligations, jobs=16, timeout_ms=20000, rlimit=None, use_cvc5=T
                 r.status = "error"
                 r.reason = reason
                 continue
-            retry.append((ob, task, out, reason))
+            retry.append((i, ob, out, reason))
         # portfolio: a second z3 configuration (in parallel) for what the first left open
         if retry:
-            t2 = [(task[0], timeout_ms, rlimit, "split", False) for _ob, task, _o, _r in retry]
-            outs2 = list(ex.map(_solve_text, t2, chunksize=1))
+            t2 = [(i, timeout_ms, rlimit, "split", False) for i, _ob, _o, _r in retry]
+            outs2 = ex.map(_solve_idx, t2, chunksize=1)
             still = []
-            for (ob, task, out, reason), (o2, dt2, _m, r2) in zip(retry, outs2):
+            for (i, ob, out, reason), (o2, dt2, _m, r2) in zip(retry, outs2):
                 r = results[ob.name]
                 r.time += dt2
                 if o2 == "unsat":
                     r.backends.add("z3-split")
                 else:
-                    still.append((ob, task, out, reason))
+                    still.append((i, ob, out, reason))
             retry = still
+        retry = [(ob, (to_smt2(axioms, ob.pc, ob.goal, negate=True), timeout_ms), out, reason) for i, ob, out, reason in retry] \
+            if (use_cvc5 or model_phase) else [(ob, ("", timeout_ms), out, reason) for i, ob, out, reason in retry]
         # second back end for what z3 left open
         rank = {"discharged": 0, "error": 1, "open": 2, "refuted": 3, "vacuous": 4}
         for ob, task, out, reason in retry:
             r = results[ob.name]
             inst = "open"
-            if use_cvc5:
+            if use_cvc5 and task[0]:
                 c_out, dt = _cvc5(task[0], max(5, timeout_ms // 1000))
                 r.time += dt
                 if c_out == "unsat":
                     r.backends.add("cvc5")
                     inst = "discharged"
-            if inst == "open" and model_phase:
+            if inst == "open" and model_phase and task[0]:
                 m_out, dt, model, _ = _solve_text((task[0], min(timeout_ms, 10000), None, True, True))
                 r.time += dt
                 if m_out == "sat":
@@ -172,5 +201,6 @@ def discharge(E, obligations, jobs=16, timeout_ms=20000, rlimit=None, use_cvc5=T
                 r.status = inst
         return list(results.values())
     finally:
-        if own:
-            ex.shutdown()
+        ex.close()
+        ex.join()
+        _G.clear()
